@@ -89,7 +89,85 @@ pub enum Cov {
     BlobField, MethodSelf, EnumVariant, ListOp, GlobalWrite, Recursion, HigherOrder,
 }
 
+/// A heap object as seen by the initialisation-order analysis.
+#[derive(Clone, Copy, PartialEq, Eq, Hash, Debug)]
+enum Obj {
+    Cell(u32),
+    Blob(u32),
+    List(u32),
+}
+
+/// Which global initialiser touched which heap object. The language fixes the order of two initialisers only
+/// when one depends on the other; an object that one initialiser *mutates* (without having created it) and
+/// another initialiser reads or mutates makes the program's meaning depend on an order the language leaves
+/// open, and so do two initialisers that both print. Conservative: dependencies between the two are not looked at.
+#[derive(Default)]
+struct InitLog {
+    /// index of the initialiser being run (None: before / after initialisation)
+    current: Option<usize>,
+    n_globals: usize,
+    /// (cells, blobs, lists) allocated before initialiser i started
+    starts: Vec<(usize, usize, usize)>,
+    mutated: HashMap<Obj, usize>,
+    read: HashMap<Obj, Vec<usize>>,
+    printed_by: Vec<usize>,
+    conflict: bool,
+}
+
+impl InitLog {
+    fn creator(&self, o: Obj) -> Option<usize> {
+        let (id, which) = match o {
+            Obj::Cell(c) => {
+                if (c as usize) < self.n_globals {
+                    return Some(c as usize);
+                }
+                (c as usize, 0)
+            }
+            Obj::Blob(b) => (b as usize, 1),
+            Obj::List(l) => (l as usize, 2),
+        };
+        let mut owner = None;
+        for (i, st) in self.starts.iter().enumerate() {
+            let start = [st.0, st.1, st.2][which];
+            if id >= start {
+                owner = Some(i);
+            }
+        }
+        owner
+    }
+    fn touch(&mut self, o: Obj, write: bool) {
+        let cur = match self.current {
+            Some(c) => c,
+            None => return,
+        };
+        if self.creator(o) == Some(cur) {
+            return;
+        }
+        if write {
+            match self.mutated.get(&o) {
+                Some(x) if *x != cur => self.conflict = true,
+                Some(_) => {}
+                None => {
+                    self.mutated.insert(o, cur);
+                }
+            }
+            if self.read.get(&o).map(|r| r.iter().any(|y| *y != cur)).unwrap_or(false) {
+                self.conflict = true;
+            }
+        } else {
+            if matches!(self.mutated.get(&o), Some(x) if *x != cur) {
+                self.conflict = true;
+            }
+            let r = self.read.entry(o).or_default();
+            if !r.contains(&cur) {
+                r.push(cur);
+            }
+        }
+    }
+}
+
 pub struct Interp<'p> {
+    init: std::cell::RefCell<InitLog>,
     p: &'p Program,
     cells: Vec<Val>,
     cell_owner: Vec<u32>, // activation id that created the cell
@@ -157,6 +235,7 @@ pub fn run_program(p: &Program, max_steps: u64) -> RunResult {
 impl<'p> Interp<'p> {
     pub fn new(p: &'p Program, max_steps: u64) -> Self {
         Interp {
+            init: std::cell::RefCell::new(InitLog::default()),
             p,
             cells: Vec::new(),
             cell_owner: Vec::new(),
@@ -216,11 +295,18 @@ impl<'p> Interp<'p> {
             self.globals.insert(g.var, c);
         }
         let mut start = None;
-        for g in &p.globals {
+        self.init.borrow_mut().n_globals = p.globals.len();
+        for (gi, g) in p.globals.iter().enumerate() {
+            {
+                let mut log = self.init.borrow_mut();
+                log.current = Some(gi);
+                log.starts.push((self.cells.len(), self.blobs.len(), self.lists.len()));
+            }
             let mut frame = Vec::new();
             let mark = self.outstanding.len();
             let r = self.eval(&g.value, &mut frame);
             self.outstanding.truncate(mark);
+            self.init.borrow_mut().current = None;
             match r {
                 Ok(v) => {
                     let c = self.globals[&g.var];
@@ -232,6 +318,9 @@ impl<'p> Interp<'p> {
                 Err(Abort::Stop(s)) => return Some(s),
                 Err(_) => return Some(Stop::Dyn("control".into(), "break/continue/ret at top level".into())),
             }
+        }
+        if self.init.borrow().conflict {
+            self.ambiguous = true;
         }
         let start = match start {
             Some(c) => self.cells[c as usize].clone(),
@@ -254,6 +343,7 @@ impl<'p> Interp<'p> {
     }
 
     fn write_cell(&mut self, c: u32, v: Val) {
+        self.init.borrow_mut().touch(Obj::Cell(c), true);
         if self.outstanding.contains(&Loc::Cell(c)) {
             self.ambiguous = true;
         }
@@ -292,6 +382,7 @@ impl<'p> Interp<'p> {
                 }
             }
             Val::List(l) => {
+                self.init.borrow_mut().touch(Obj::List(*l), false);
                 let items = self.lists[*l as usize].clone();
                 let parts: Vec<String> = items.iter().map(|x| self.to_str(x)).collect();
                 format!("[{}]", parts.join(", "))
@@ -338,6 +429,8 @@ impl<'p> Interp<'p> {
                 if x == y {
                     return true;
                 }
+                self.init.borrow_mut().touch(Obj::List(*x), false);
+                self.init.borrow_mut().touch(Obj::List(*y), false);
                 let (lx, ly) = (&self.lists[*x as usize], &self.lists[*y as usize]);
                 lx.len() == ly.len() && lx.iter().zip(ly.iter()).all(|(a, b)| self.val_eq(a, b))
             }
@@ -345,6 +438,8 @@ impl<'p> Interp<'p> {
                 if x == y {
                     return true;
                 }
+                self.init.borrow_mut().touch(Obj::Blob(*x), false);
+                self.init.borrow_mut().touch(Obj::Blob(*y), false);
                 let (bx, by) = (&self.blobs[*x as usize], &self.blobs[*y as usize]);
                 bx.1.len() == by.1.len()
                     && bx.1.iter().all(|(n, v)| by.1.iter().any(|(m, w)| n == m && self.val_eq(v, w)))
@@ -642,6 +737,7 @@ impl<'p> Interp<'p> {
                         if self.outstanding.contains(&loc) {
                             self.ambiguous = true;
                         }
+                        self.init.borrow_mut().touch(Obj::Blob(b), true);
                         self.blobs[b as usize].1[slot].1 = res;
                     }
                 }
@@ -731,7 +827,10 @@ impl<'p> Interp<'p> {
             EKind::Str(s) => Ok(Val::Str(Rc::from(s.as_str()))),
             EKind::Bool(b) => Ok(Val::Bool(*b)),
             EKind::Var(v) => match self.lookup(*v, frame) {
-                Some(c) => Ok(self.cells[c as usize].clone()),
+                Some(c) => {
+                    self.init.borrow_mut().touch(Obj::Cell(c), false);
+                    Ok(self.cells[c as usize].clone())
+                }
                 None => dynerr("unbound", format!("read of out-of-scope variable #{} ({})", v, self.p.var(*v).name)),
             },
             EKind::Bin(op, a, b) => match op {
@@ -918,6 +1017,7 @@ impl<'p> Interp<'p> {
                         Some(slot) => {
                             self.hit(Cov::BlobField);
                             self.outstanding.push(Loc::Field(b, slot as u32));
+                            self.init.borrow_mut().touch(Obj::Blob(b), false);
                             Ok(self.blobs[b as usize].1[slot].1.clone())
                         }
                         None => dynerr("field", format!("blob has no field {}", name)),
@@ -965,7 +1065,10 @@ impl<'p> Interp<'p> {
 
     fn as_list(&self, v: &Val, what: &str) -> R<u32> {
         match v {
-            Val::List(l) => Ok(*l),
+            Val::List(l) => {
+                self.init.borrow_mut().touch(Obj::List(*l), what == "push");
+                Ok(*l)
+            }
             other => dynerr("list-arg", format!("{} got a {}", what, other.tag())),
         }
     }
@@ -974,6 +1077,17 @@ impl<'p> Interp<'p> {
         self.step()?;
         match f {
             StdFn::Print => {
+                {
+                    let mut log = self.init.borrow_mut();
+                    if let Some(cur) = log.current {
+                        if !log.printed_by.contains(&cur) {
+                            log.printed_by.push(cur);
+                        }
+                        if log.printed_by.len() > 1 {
+                            log.conflict = true;
+                        }
+                    }
+                }
                 let s = self.to_str(&args[0]);
                 self.out.push(s);
                 Ok(Val::Void)
